@@ -270,6 +270,36 @@ Section Flat.
       end.
   Proof. reflexivity. Qed.
 
+  (* the defining equation of build_args (text of Model/Expand.v) *)
+  Lemma build_args_S f stk args num ht : build_args (S f) stk args num ht =
+      match args with
+      | [] => Some ht
+      | a :: rest =>
+        match split_named_i a with
+        | Some (kname, v) =>
+          let kc := codes kname in
+          let kopt := if positive_number kc then Some (KInt (to_num kc))
+                      else match expand_recurse f (stk ++ [FArgName]) true kname with
+                           | Some kx => Some (KStr (strip_by sp_py (collapse_ws (codes kx))))
+                           | None => None
+                           end in
+          match kopt with
+          | None => None
+          | Some k =>
+            match expand_recurse f (stk ++ [FArgVal k]) true v with
+            | Some v' => build_args f stk rest num (am_set ht k (strip_i v'))
+            | None => None
+            end
+          end
+        | None =>
+          match expand_recurse f (stk ++ [FArgVal (KInt num)]) true a with
+          | Some v' => build_args f stk rest (num + 1) (am_set ht (KInt num) v')
+          | None => None
+          end
+        end
+      end.
+  Proof. reflexivity. Qed.
+
   Fixpoint size (e : enc) : nat :=
     match e with
     | [] => 1
@@ -413,6 +443,44 @@ Section Flat.
 
   (** The call: [name] is a template name (blank-free at both ends, no colon, not a parser function), the
       arguments are plain, no hook is installed; written at page level, with full expansion. *)
+  Theorem flat_call_uniform name args :
+    strip_i (chars name) = chars name -> existsb (N.eqb 58) name = false ->
+    Expand.classify_pf pfnames (Expand.canon_pf pfnames name) = PfNone ->
+    forallb plain args = true ->
+    o_tfn opts = [] -> o_pfn opts = [] ->
+    (forall t, find_tpl lib name = Some t -> flat_body (t_body t) = true) ->
+    exists F, forall stk fuel, (length stk < 100)%nat -> detect_loop (stk ++ [FTemplate name]) = false -> (F <= fuel)%nat ->
+      expand_T fuel stk true (chars name :: args) = Some (result_of lib name args).
+  Proof.
+    intros Hstrip Hcolon Hpf Hargs Htfn Hpfn Hbody.
+    set (ht := bind_args args 1 []).
+    assert (Hht : values_plain ht = true) by (apply bind_plain; [exact Hargs | reflexivity]).
+    set (bsize := match find_tpl lib name with
+                  | Some t => (size (marked_body (t_body t)) + length (code_subst ht (marked_body (t_body t))))%nat
+                  | None => 0%nat end).
+    exists (length name + fold_right (fun a n => (length a + n)%nat) 0%nat args + length args + bsize + 10)%nat.
+    intros stk fuel Hdepth Hloop Hf. destruct fuel as [|f]; [lia|].
+    rewrite expand_T_S. replace (Nat.leb 100 (length stk)) with false by (symmetry; apply Nat.leb_gt; exact Hdepth).
+    rewrite (expand_recurse_plain pfnames lib opts (chars name) (plain_chars name)) by (unfold chars; rewrite map_length; lia).
+    cbv beta iota zeta. rewrite Hstrip, codes_chars.
+    rewrite (no_colon_index name 0 Hcolon).
+    rewrite Hpf. rewrite Hcolon. cbn [negb andb].
+    rewrite Hloop.
+    rewrite (build_args_flat args Hargs) by lia. fold ht.
+    rewrite Htfn, Hpfn. cbn [hook_ret find].
+    unfold result_of. fold ht.
+    destruct (find_tpl lib name) as [t|] eqn:Et.
+    - specialize (Hbody t eq_refl).
+      fold (marked_body (t_body t)).
+      rewrite (expand_args_flat (marked_body (t_body t)) (flat_marked _ Hbody)) by (unfold bsize in Hf; lia).
+      assert (Hp : plain (code_subst ht (marked_body (t_body t))) = true)
+        by (apply subst_plain; [apply plain_drop_last_nl | exact Hht | apply flat_marked; exact Hbody]).
+      rewrite (expand_recurse_plain pfnames lib opts _ Hp) by (unfold bsize in Hf; lia).
+      unfold code_subst. rewrite add_newline_marked.
+      destruct (add_newline (subst drop_last_nl ht (t_body t))); reflexivity.
+    - cbn. reflexivity.
+  Qed.
+
   Theorem flat_call_at stk name args :
     (length stk < 100)%nat -> detect_loop (stk ++ [FTemplate name]) = false ->
     strip_i (chars name) = chars name -> existsb (N.eqb 58) name = false ->
@@ -993,6 +1061,164 @@ Section Flat.
     rewrite Hstrip.
     rewrite (switch_loop_simple _ (strip_i x) cases None f' Hm I) by lia.
     reflexivity.
+  Qed.
+
+
+  (** Calls inside the arguments of a call (C04: arguments are expanded in the caller's frame). *)
+  Lemma existsb_rev {A} (f : A -> bool) l : existsb f (rev l) = existsb f l.
+  Proof.
+    induction l as [|x l IH]; [reflexivity|]. cbn [rev existsb]. rewrite existsb_app, IH. cbn. rewrite orb_false_r. apply orb_comm.
+  Qed.
+
+  (* a template that is not on the expansion path yet cannot be looping *)
+  Lemma detect_loop_fresh stk fr : existsb (frame_eqb fr) stk = false -> detect_loop (stk ++ [fr]) = false.
+  Proof.
+    intros H. unfold detect_loop. destruct (Nat.ltb (length (stk ++ [fr])) 2); [reflexivity|].
+    rewrite rev_app_distr. cbn [rev app]. rewrite existsb_rev, H. reflexivity.
+  Qed.
+
+  Definition fresh_items (stk : list frame) (page : enc) : bool :=
+    forallb (fun i => match i with T (n :: _) => negb (existsb (frame_eqb (FTemplate (codes n))) stk) | _ => true end) page.
+
+  (* text and flat calls, expanded anywhere below the depth limit where none of the called templates is being expanded;
+     the fuel that suffices does not depend on where *)
+  Lemma expand_items_at page :
+    forallb flat_item page = true -> o_tfn opts = [] -> o_pfn opts = [] ->
+    exists F, forall stk fuel, (length stk < 100)%nat -> fresh_items stk page = true -> (F <= fuel)%nat ->
+      expand_recurse fuel stk true page = Some (page_result page).
+  Proof.
+    intros Hpage Htfn Hpfn.
+    induction page as [|i page IH].
+    - exists 1%nat. intros stk fuel _ _ Hf. destruct fuel; [lia | reflexivity].
+    - cbn in Hpage. apply andb_true_iff in Hpage. destruct Hpage as [Hi Hp].
+      destruct (IH Hp) as [F HF].
+      destruct i as [c|[|n args]| | | |]; try discriminate Hi.
+      + exists (S F). intros stk fuel Hd Hfresh Hf. destruct fuel as [|f]; [lia|].
+        cbn in Hfresh.
+        cbn [Expand.expand_recurse]. rewrite (HF stk f Hd Hfresh) by lia. reflexivity.
+      + apply andb_true_iff in Hi. destruct Hi as [Hn Hok].
+        destruct (flat_ok_premises _ _ Hok) as (H1 & H2 & H3 & H4 & H5).
+        destruct (flat_call_uniform (codes n) args H1 H2 H3 H4 Htfn Hpfn H5) as [G HG].
+        exists (S (F + G)). intros stk fuel Hd Hfresh Hf. destruct fuel as [|f]; [lia|].
+        cbn in Hfresh. apply andb_true_iff in Hfresh. destruct Hfresh as [Hfi Hfp].
+        apply negb_true_iff in Hfi.
+        assert (E : n = chars (codes n)) by (symmetry; apply plain_chars_codes; exact Hn).
+        remember (codes n) as name eqn:En. rewrite E. clear E.
+        change (expand_recurse (S f) stk true (T (chars name :: args) :: page))
+          with (match expand_recurse f stk true page with
+                | None => None
+                | Some rest' => match expand_T f stk true (chars name :: args) with
+                                | Some t => Some (t ++ rest') | None => None end
+                end).
+        rewrite (HF stk f Hd Hfp) by lia. rewrite (HG stk f Hd (detect_loop_fresh _ _ Hfi)) by lia.
+        unfold FlatCall.page_result. cbn [flat_map]. rewrite codes_chars. reflexivity.
+  Qed.
+
+  Notation nested_arg_ok := (FlatCall.nested_arg_ok pfnames lib).
+  Notation bind_nested := (FlatCall.bind_nested lib).
+
+  Lemma items_ok_split outer e :
+    forallb (fun i => flat_item i && match i with T (n :: _) => negb (str_eqb (codes n) outer) | _ => true end) e = true ->
+    forallb flat_item e = true /\
+    forall k, fresh_items [FTitle; FTemplate outer; FArgVal k] e = true.
+  Proof.
+    intros H. split.
+    - apply forallb_forall. intros x Hx. rewrite forallb_forall in H. specialize (H x Hx). apply andb_true_iff in H. tauto.
+    - intros k. unfold fresh_items. apply forallb_forall. intros x Hx. rewrite forallb_forall in H. specialize (H x Hx).
+      apply andb_true_iff in H. destruct H as [_ H]. destruct x as [c|[|n args]| | | |]; try reflexivity.
+      cbn [existsb frame_eqb orb]. rewrite orb_false_r. exact H.
+  Qed.
+
+  Lemma values_plain_nested outer args : forallb (nested_arg_ok outer) args = true ->
+    forall num ht, values_plain ht = true -> values_plain (bind_nested args num ht) = true.
+  Proof.
+    induction args as [|a args IH]; intros Ha num ht Hh; [exact Hh|].
+    cbn in Ha. apply andb_true_iff in Ha. destruct Ha as [Ha Hr]. cbn [FlatCall.bind_nested].
+    unfold FlatCall.nested_arg_ok in Ha.
+    destruct (split_named_i a) as [[k v]|] eqn:E.
+    - apply andb_true_iff in Ha. destruct Ha as [_ Hv]. destruct (items_ok_split outer v Hv) as [Hfv _].
+      apply IH; [exact Hr | apply values_plain_set; [exact Hh | apply plain_strip, page_result_plain; exact Hfv]].
+    - destruct (items_ok_split outer a Ha) as [Hfa _].
+      apply IH; [exact Hr | apply values_plain_set; [exact Hh | apply page_result_plain; exact Hfa]].
+  Qed.
+
+  (* the argument dictionary: every value is the argument with its calls replaced, computed on the caller's path *)
+  Lemma build_args_nested outer args :
+    forallb (nested_arg_ok outer) args = true -> o_tfn opts = [] -> o_pfn opts = [] ->
+    exists F, forall fuel num ht, (F <= fuel)%nat ->
+      build_args fuel [FTitle; FTemplate outer] args num ht = Some (bind_nested args num ht).
+  Proof.
+    intros Hargs Htfn Hpfn. induction args as [|a args IH].
+    - exists 1%nat. intros fuel num ht Hf. destruct fuel; [lia | reflexivity].
+    - cbn in Hargs. apply andb_true_iff in Hargs. destruct Hargs as [Ha Hr].
+      destruct (IH Hr) as [F HF].
+      unfold FlatCall.nested_arg_ok in Ha.
+      destruct (split_named_i a) as [[k v]|] eqn:E.
+      + apply andb_true_iff in Ha. destruct Ha as [Hk Hv].
+        destruct (items_ok_split outer v Hv) as [Hfv Hfresh].
+        destruct (expand_items_at v Hfv Htfn Hpfn) as [G HG].
+        exists (S (F + G + length k + 2)). intros fuel num ht Hf. destruct fuel as [|f]; [lia|].
+        rewrite build_args_S. cbn [FlatCall.bind_nested]. rewrite E. cbv beta iota zeta.
+        unfold name_key.
+        destruct (positive_number (codes k)).
+        * rewrite (HG ([FTitle; FTemplate outer] ++ [FArgVal (KInt (to_num (codes k)))]) f) by (cbn; (lia || apply Hfresh)).
+          apply HF. lia.
+        * rewrite (expand_recurse_plain pfnames lib opts k Hk) by lia.
+          rewrite (HG ([FTitle; FTemplate outer] ++ [FArgVal (KStr (strip_by sp_py (collapse_ws (codes k))))]) f)
+            by (cbn; (lia || apply Hfresh)).
+          apply HF. lia.
+      + destruct (items_ok_split outer a Ha) as [Hfa Hfresh].
+        destruct (expand_items_at a Hfa Htfn Hpfn) as [G HG].
+        exists (S (F + G)). intros fuel num ht Hf. destruct fuel as [|f]; [lia|].
+        rewrite build_args_S. cbn [FlatCall.bind_nested]. rewrite E. cbv beta iota zeta.
+        rewrite (HG ([FTitle; FTemplate outer] ++ [FArgVal (KInt num)]) f) by (cbn; (lia || apply Hfresh)).
+        apply HF. lia.
+  Qed.
+
+  Theorem nested_call name args :
+    FlatCall.nested_ok pfnames lib name args = true -> o_tfn opts = [] -> o_pfn opts = [] ->
+    exists F, forall fuel, (F <= fuel)%nat ->
+      expand_T fuel [FTitle] true (chars name :: args) = Some (FlatCall.nested_result lib name args).
+  Proof.
+    intros Hok Htfn Hpfn.
+    unfold FlatCall.nested_ok in Hok. repeat (apply andb_true_iff in Hok; destruct Hok as [Hok ?]).
+    assert (Hstrip : strip_i (chars name) = chars name).
+    { apply str_eqb_eq in Hok. rewrite <- (plain_chars_codes (strip_i (chars name))) by (apply plain_strip, plain_chars).
+      rewrite Hok. reflexivity. }
+    assert (Hcolon : existsb (N.eqb 58) name = false) by (match goal with X : negb _ = true |- _ => apply negb_true_iff in X; exact X end).
+    assert (Hpf : Expand.classify_pf pfnames (Expand.canon_pf pfnames name) = PfNone)
+      by (destruct (Expand.classify_pf pfnames (Expand.canon_pf pfnames name)); try discriminate; reflexivity).
+    assert (Hargs : forallb (nested_arg_ok name) args = true) by assumption.
+    assert (Hbody : forall t, find_tpl lib name = Some t -> flat_body (t_body t) = true).
+    { intros t Ht. match goal with X : match find_tpl lib name with _ => _ end = true |- _ => rewrite Ht in X; exact X end. }
+    destruct (build_args_nested name args Hargs Htfn Hpfn) as [B HB].
+    set (ht := bind_nested args 1 []).
+    assert (Hht : values_plain ht = true) by (apply (values_plain_nested name); [exact Hargs | reflexivity]).
+    set (bsize := match find_tpl lib name with
+                  | Some t => (size (marked_body (t_body t)) + length (code_subst ht (marked_body (t_body t))))%nat
+                  | None => 0%nat end).
+    exists (length name + B + bsize + 10)%nat.
+    intros fuel Hf. destruct fuel as [|f]; [lia|].
+    rewrite expand_T_S. replace (Nat.leb 100 (length [FTitle])) with false by reflexivity.
+    rewrite (expand_recurse_plain pfnames lib opts (chars name) (plain_chars name)) by (unfold chars; rewrite map_length; lia).
+    cbv beta iota zeta. rewrite Hstrip, codes_chars.
+    rewrite (no_colon_index name 0 Hcolon).
+    rewrite Hpf. rewrite Hcolon. cbn [negb andb].
+    replace (detect_loop ([FTitle] ++ [FTemplate name])) with false by reflexivity.
+    change ([FTitle] ++ [FTemplate name]) with [FTitle; FTemplate name].
+    rewrite (HB f 1 []) by lia. fold ht.
+    rewrite Htfn, Hpfn. cbn [hook_ret find].
+    unfold FlatCall.nested_result. fold ht.
+    destruct (find_tpl lib name) as [t|] eqn:Et.
+    - specialize (Hbody t eq_refl).
+      fold (marked_body (t_body t)).
+      rewrite (expand_args_flat (marked_body (t_body t)) (flat_marked _ Hbody)) by (unfold bsize in Hf; lia).
+      assert (Hp : plain (code_subst ht (marked_body (t_body t))) = true)
+        by (apply subst_plain; [apply plain_drop_last_nl | exact Hht | apply flat_marked; exact Hbody]).
+      rewrite (expand_recurse_plain pfnames lib opts _ Hp) by (unfold bsize in Hf; lia).
+      unfold code_subst. rewrite add_newline_marked.
+      destruct (add_newline (subst drop_last_nl ht (t_body t))); reflexivity.
+    - cbn. reflexivity.
   Qed.
 End Flat.
 
